@@ -228,6 +228,9 @@ def run(ctx, out):
     # (0) the dispatcher: real eventloop_epoll.c (removed io_events are really freed, ASan) against Cjet.Evloop
     from vlib import evloop_tie
     evloop_tie.run_evloop_tie(ctx, out)
+    # (0b) the JSON text layer: real cJSON.c on exactly sized buffers (ASan) against Cjet.Cjson
+    from vlib import cjson_tie
+    cjson_tie.run_cjson_tie(ctx, out)
     # (a) structured sessions through the model tie, all messages randomly segmented
     dcheck.run_property(ctx, out, "C06", None, n_quick=250, n_thorough=4000,
                         gen_kw=dict(ws_share=0.4, batches=0.15, malformed=0.1, faults=True),
